@@ -737,7 +737,15 @@ class Run:
         if isinstance(node, ast.Lambda):
             return self.eval(node.body, env)
         if _is_generator(node):
-            raise Unsupported(f"generator function {vf.qualname}")
+            # generator function: run the body eagerly, collecting what it yields (sound when the generator is
+            # consumed completely or has no side effects; noted as an assumption)
+            self.note("generator functions are executed eagerly (their yields collected into a list)")
+            env.vars["$yields"] = []
+            try:
+                self.exec_block(node.body, env)
+            except _Return:
+                pass
+            return VIter(iter(env.vars["$yields"]), "generator")
         try:
             self.exec_block(node.body, env)
         except _Return as r:
@@ -1411,6 +1419,22 @@ class Run:
         if hit is None:
             self.throw(TypeError, f"'{cls_of(obj).__name__}' object does not support item assignment")
         self.call(self.bind_raw(hit[0], "__setitem__", hit[1], obj, cls_of(obj)), [idx, v])
+
+    def _yield_sink(self, env):
+        x = env
+        while x is not None:
+            if "$yields" in x.vars:
+                return x.vars["$yields"]
+            x = x.parent
+        raise Unsupported("yield outside a generator frame")
+
+    def e_Yield(self, e, env):
+        self._yield_sink(env).append(self.eval(e.value, env) if e.value is not None else NONE)
+        return NONE
+
+    def e_YieldFrom(self, e, env):
+        self._yield_sink(env).extend(list(self.iterate(self.eval(e.value, env))))
+        return NONE
 
     def e_Starred(self, e, env):
         raise Unsupported("starred expression")
